@@ -519,6 +519,14 @@ def bv_to_bvp_guards(crate):
     return out
 
 
+def _subst(e, mapping):
+    if not isinstance(e, tuple):
+        return e
+    if e in mapping:
+        return mapping[e]
+    return tuple(_subst(y, mapping) if isinstance(y, tuple) else y for y in e)
+
+
 def bv_reserve_shape(crate):
     """Bv::reserve promotes exactly when len + additional > Bvp::capacity(); shrink_to_fit demotes exactly when
     len <= Bvp::capacity() (the predicate Bv::zeros uses to choose inline storage)"""
@@ -574,8 +582,19 @@ def bv_reserve_shape(crate):
                         "inline storage exactly when the requested length <= Bvp::capacity()" if ok else "mode predicate not recognised"))
     for x in crate.bodies:
         if x.key in ("Bvd::reserve", "Bvd::shrink_to_fit"):
-            # allocation slots
+            # allocation slots (followed one call deep into a private helper of Bvd, with its parameters substituted)
             allocs = [x.e_call(t) for bb, t, fn in x.iter_calls() if fn and fn["name"] == "take"]
+            if not allocs:
+                for bb, t, fn in x.iter_calls():
+                    if fn and fn.get("local") and not fn.get("trait") and fn["name"] not in ("capacity_from_bit_len", "capacity_from_byte_len"):
+                        callee = crate.body(fn["path"])
+                        if callee is None or callee.self_family != "Bvd":
+                            continue
+                        actual = [x.e_operand(a) for a in t["args"]]
+                        mapping = {("param", callee.local_name(i + 1)): actual[i] for i in range(min(len(actual), callee.arg_count))}
+                        for cb, ct, cfn in callee.iter_calls():
+                            if cfn and cfn["name"] == "take":
+                                allocs.append(_subst(callee.e_call(ct), mapping))
             want = ("bin", "Add", f2.SELF_LEN, ("param", "additional")) if x.name == "reserve" else f2.SELF_LEN
             ok = len(allocs) == 1 and mask.cap_arg(allocs[0][3][1]) == want
             out.append((x, "%s|allocation slot" % x.key, "pass" if ok else "violation",
